@@ -737,7 +737,7 @@ class Gen(object):
             return self.pending.pop(0)
         c = r.choice(self.clients)
         ci = self.clients.index(c)
-        kinds = [("new", 3), ("eval_old", 5), ("rebuild", 3), ("compose", 1), ("str", 1), ("pickle", 0.7), ("exec1", 1.5), ("abort", 0.8), ("mode", 0.3)]
+        kinds = [("new", 3), ("eval_old", 5), ("rebuild", 3), ("remap", 1.5), ("elsewhere", 1), ("compose", 1), ("str", 1), ("pickle", 0.7), ("exec1", 1.5), ("abort", 0.8), ("mode", 0.3)]
         k = weighted(r, kinds)
         if k == "new" or not c["blocks"]:
             if len(c["blocks"]) >= 12:
@@ -762,6 +762,25 @@ class Gen(object):
                 c["maps"].pop(0)
             self.pending = [{"op": "map", "id": mid, "block": bid, "client": ci}, {"op": "eval", "map": mid, "salts": list(range(SALTS)), "client": ci}]
             return {"op": "block", "id": bid, "isa": blk["isa"], "ins": blk["ins"], "addr": blk["addr"], "client": ci}
+        if k == "remap" and c["blocks"]:
+            # a new map from the instruction objects decoded earlier (they are held by the
+            # client's block; nobody else may have changed them)
+            mid = self.newid("m")
+            c["maps"].append(mid)
+            self.pending = [{"op": "eval", "map": mid, "salts": list(range(SALTS)), "client": ci}]
+            return {"op": "map", "id": mid, "block": r.choice(c["blocks"]), "client": ci}
+        if k == "elsewhere" and c["blocks"]:
+            # the same bytes decoded at another address (a shared / memoised instruction
+            # object would drag its address along)
+            old = r.choice(c["blocks"])
+            blk = self.W.blocks.get(old)
+            if blk is not None:
+                bid = self.newid("b")
+                mid = self.newid("m")
+                c["blocks"].append(bid)
+                c["maps"].append(mid)
+                self.pending = [{"op": "map", "id": mid, "block": bid, "client": ci}, {"op": "eval", "map": mid, "salts": list(range(SALTS)), "client": ci}]
+                return {"op": "block", "id": bid, "isa": blk["isa"], "ins": blk["ins"], "addr": blk["addr"] ^ 0x2040, "client": ci}
         if k == "compose" and len(c["maps"]) >= 2:
             mid = self.newid("m")
             c["maps"].append(mid)
